@@ -39,6 +39,7 @@ type vScript struct {
 	failFactory bool
 	failExec    bool
 	execCode    uint16 // error code of the master's answer to the SET statement when failExec
+	slowDial    bool   // the master accepts the connection and stays silent: establishing it only ends by cancellation
 	failNotice  bool
 	pipe        bool // native only: in-memory transport instead of loopback TCP
 	ahead       bool // pacing: master far ahead (buffered hand-off) or lock-step
@@ -100,6 +101,11 @@ func vhModelDumpConn(dsn string, ctx context.Context) (*vConn, error) {
 	}
 	if err := ctx.Err(); err != nil {
 		return nil, err // the driver dials and shakes hands under the context
+	}
+	if sc.slowDial {
+		// the handshake never arrives: the driver waits for it under the context it was given
+		<-ctx.Done()
+		return nil, ctx.Err()
 	}
 	n := 0
 	if sc.ahead {
@@ -287,6 +293,7 @@ const (
 	scHandlerAndCancel // the handler rejects the first transaction while the caller cancels
 	scHandlerAndLost   // the handler rejects the first transaction and the master drops the connection after its last packet
 	scHandlerAndEOF    // the handler rejects the first transaction while the master's EOF for the whole dump arrives
+	scCancelInDial     // the caller cancels while the connection is being established (master accepts, then stays silent)
 	scKinds
 )
 
@@ -346,6 +353,8 @@ func VH_C05_Stream(cause, npk, ahead, hmode int) {
 		sc.end = endLost
 	case scFactory:
 		sc.failFactory = true
+	case scCancelInDial:
+		sc.slowDial = true
 	case scExec:
 		sc.failExec = true
 		sc.end = endEOF // should a dump start all the same, it ends, and the assertions below speak
@@ -359,7 +368,7 @@ func VH_C05_Stream(cause, npk, ahead, hmode int) {
 	env := vhStartEnv(sc)
 	defer env.stop()
 	ctx := newVCtx()
-	if cause == scCancel || cause == scCancelAndLost || cause == scHandlerAndCancel {
+	if cause == scCancel || cause == scCancelAndLost || cause == scHandlerAndCancel || cause == scCancelInDial {
 		go func() {
 			vhEnvWait(evCancel)
 			ctx.cancel() // the start of this goroutine is itself an arbitrary scheduling point
@@ -418,6 +427,9 @@ func VH_C05_Stream(cause, npk, ahead, hmode int) {
 		}
 	case scFactory, scExec, scNotice:
 		vhAssert(err != nil, "a failed handshake makes Stream return an error")
+	case scCancelInDial:
+		vhAssert(err != nil, "a connection that could not be established makes Stream return an error")
+		vhAssert(delivered == 0, "nothing is delivered")
 	}
 	if cause == scExec {
 		for _, c := range env.calls() {
